@@ -247,9 +247,12 @@ def t_literals():
         stats.nt("str", name)
     flags = ["", "a", "i", "m", "s", "ai", "im", "ms", "ais", "aims", "smia"]
     for fl in flags:
-        for pat in ("a.c", "^A", "a$", "A.C", "a\\.c", "[a-c]+", "a|b", "(?i:a)b", "(?i)ab", "(?s:.)b", "(?i:a).c", "(?m:^a)b", "(?a:\\w)b", "a(?i:b)"):
+        for pat in ("a.c", "^A", "a$", "A.C", "a\\.c", "[a-c]+", "a|b", "(?i:a)b", "(?i)ab", "(?s:.)b", "(?i:a).c", "(?m:^a)b", "(?a:\\w)b", "a(?i:b)",
+                    # an escaped slash, a class holding a slash, escaped backslashes next to the closing slash (accepted or not,
+                    # whatever compiles must print a text that compiles to the same thing)
+                    "a\\/b", "\\/", "a[/]b", "a\\\\", "a\\\\\\/b", "[\\/]", "a\\.b\\/"):
             judge(stats, "$[?@ =~ /%s/%s]" % (pat, fl), [["abc", "ABC", "a\nc", "a.c", "b", "xabc\n", "é", "ab", "AB", "aB", "Ab", "\nb", "\nB", "éb", "éB",
-                                                            "A\nC", "a\nC"]], "regex")
+                                                            "A\nC", "a\nC", "a/b", "/", "a\\", "a\\/b", "a.b/"]], "regex")
             n += 1
         stats.nt("flags", fl)
     comp = ["$.a | $.b", "$.a & $.b", "$.a | $.b | $.c", "$.a & $.b | $.c", "$.a | $.b & $.c", "^[?@.a] | $.b", "$.a | ^[0]", "$..a & $..b & $..c",
